@@ -282,9 +282,15 @@ func NewMessageDef(name, msgType string, parts []MessagePart) *MessageDef {
 		switch pType := part.(type) {
 		case messagePartWithFields:
 			for _, f := range pType.Fields() {
-				// Field if required in component is required in message only if
-				// component is required.
-				processField(f, pType.Required())
+				processField(f, false)
+			}
+			// Field if required in component is required in message only if
+			// component is required. RequiredFields accounts for nested
+			// components that are themselves optional.
+			if pType.Required() {
+				for _, f := range pType.RequiredFields() {
+					msg.RequiredTags.Add(f.Tag())
+				}
 			}
 
 		case *FieldDef:
